@@ -33,9 +33,9 @@ CHECKS = [
 
 CHECKS += [
  {"id": "C03", "engine": "gridlint", "design_ref": "DESIGN.md 4/C03",
-  "technique": "static sibling-agreement by value numbering (GVN) + definite-assignment + typestate rules",
-  "text": "Decides three structural clauses only: the two copies of the inverse-function-theorem formulas are the same value graph; _domain/_codomain are definitely assigned in all 12 classes; trim_inf is stored and honoured by transform and _convert_inf is two-sided; transforms are stateless apart from the set-once scale. Does NOT decide inverse∘forward=id, correctness of deriv/deriv2/deriv3, monotonicity (algebraic identities; computer algebra is a different family).",
-  "note": _NOTE},
+  "technique": "static formula analysis: the closed-form methods are translated from their syntax trees into algebraic normal forms (quotients of polynomials over power/log/exp generators with irreducible bases), differentiated and compared as normal forms (zero polynomial = proof for all parameters); plus sibling value numbering, definite assignment and typestate rules",
+  "text": "Decides, for all parameter values at once, on the source formulas of the 11 concrete transform classes: deriv/deriv2/deriv3 are the successive derivatives of transform (33 identities), inverse(transform(x)) = x (11), the generic inverse-derivative formulas are the inverse-function-theorem formulas and are identical in both copies, the finite reference end points (domain ends; 0 and b for the b-scaled maps) are sent to the ends of the declared codomain; _domain/_codomain definitely assigned; trim_inf stored and honoured, _convert_inf two-sided; transforms stateless apart from the set-once scale. A non-identity is reported only together with an admissible rational witness point at which the two formulas differ. Does NOT decide monotonicity or the behaviour at the infinite ends beyond 'the image is infinite'. Found and repaired: HandyModRTransform.deriv3 (wrong for every m other than 1, 2).",
+  "note": _NOTE + " sympy serves as a polynomial-arithmetic library (factor_list, cancel, diff); no heuristic simplifier is used. Power bases are assumed positive on the interior of the domain (checked at a reference point)."},
  {"id": "C04", "engine": "gridlint", "design_ref": "DESIGN.md 4/C04",
   "technique": "static def-use/value-graph shape of one function + sign abstract domain over closed-form derivatives",
   "text": "Decides the data-flow shape of transform_1d_grid: nodes = transform(nodes), weights = weights x Jacobian at the same nodes, Jacobian through a magnitude when a decreasing map is shipped, domain = ordered image, precondition and containment check armed. One known finding (signed Jacobian, pinned by a test). Does NOT decide exactness transport or numeric values.",
